@@ -1,5 +1,6 @@
 import Bifrost.Lemmas.EnvelopeField
 import Bifrost.Lemmas.EnvelopeToy
+import Bifrost.Lemmas.EnvelopeId
 /-!
 C17 — An accepted envelope configuration can be opened by its recipients. Property theorems only.
 The model is of `BuildEnvelope` as fixed (threshold validated against the shares actually placed
@@ -63,7 +64,50 @@ theorem invalidThreshold_iff :
         usableShares cfg.grants (totalOf cfg sum) < cfg.threshold + 1 :=
   build_invalidThreshold_iff P _ secret coeff nonce ctx payload keypairs cfg
 
+/-- **The structural guards**, in the order of the code: an empty payload, an empty recipient
+list, a configuration without grants and a keypair index out of range are each rejected with
+their own error before anything is sealed. -/
+theorem structural_guards :
+    (payload = [] → build P (fieldScalars K dec enc) secret coeff nonce ctx payload keypairs cfg = .err .emptyPayload) ∧
+    (payload ≠ [] → keypairs = [] →
+      build P (fieldScalars K dec enc) secret coeff nonce ctx payload keypairs cfg = .err .noKeypairs) ∧
+    (payload ≠ [] → keypairs ≠ [] → cfg.grants = [] →
+      build P (fieldScalars K dec enc) secret coeff nonce ctx payload keypairs cfg = .err .noGrants) ∧
+    (payload ≠ [] → keypairs ≠ [] → cfg.grants ≠ [] →
+      (∃ gc ∈ cfg.grants, ∃ k ∈ gc.keypairIndexes, keypairs.length ≤ k) →
+      build P (fieldScalars K dec enc) secret coeff nonce ctx payload keypairs cfg = .err .invalidKeypairIndex) := by
+  obtain ⟨g1, g2, g3, g4⟩ := build_guards P (fieldScalars K dec enc) secret coeff nonce ctx payload keypairs cfg
+  exact ⟨g1, g2, g3, fun hp hk hg hbad => g4 hp hk hg (sumShares_bad_index _ _ _ hbad)⟩
+
+/-- **A nil configuration is rejected** (every getter of a nil `*EnvelopeConfig` returns the zero
+value): the exact error, never an envelope, never a panic. -/
+theorem nil_config_rejected :
+    buildOpt P (fieldScalars K dec enc) secret coeff nonce ctx payload keypairs none =
+      if payload = [] then .err .emptyPayload else if keypairs = [] then .err .noKeypairs else .err .noGrants :=
+  buildOpt_none P _ secret coeff nonce ctx payload keypairs
+
+/-- **A recipient key of an unsupported type never yields an envelope** (whether or not a grant
+names it) … -/
+theorem unsupported_key_rejected (keys : List (Option Bytes)) (ocfg : Option Config) (hbad : none ∈ keys) :
+    ∀ env, buildKeys P (fieldScalars K dec enc) secret coeff nonce ctx payload keys ocfg ≠ .ok env :=
+  buildKeys_unsupported P _ secret coeff nonce ctx payload keys ocfg hbad
+
+/-- … and with supported keys and a non-nil configuration the function the correspondence engine
+drives (`buildKeys`) is `build`, the function of every other theorem. -/
+theorem buildKeys_is_build :
+    buildKeys P (fieldScalars K dec enc) secret coeff nonce ctx payload (keypairs.map some) (some cfg) =
+      build P (fieldScalars K dec enc) secret coeff nonce ctx payload keypairs cfg :=
+  buildKeys_supported P _ secret coeff nonce ctx payload keypairs (some cfg)
+
 end
+
+/-- The share-count sum is taken in `uint32` (the type of `totalShares`): counts 2^32-1 and 2 make
+ONE share, 2^31 and 2^31 make none (rejected: `invalidThreshold_iff`). `accepted_openable` holds
+for these configurations like for any other. -/
+theorem share_sum_wraps :
+    sumShares 2 [⟨2 ^ 32 - 1, [0]⟩, ⟨2, [1]⟩] 0 = some 1 ∧
+    sumShares 2 [⟨2 ^ 31, [0]⟩, ⟨2 ^ 31, [1]⟩] 0 = some 0 ∧
+    usableShares [⟨2 ^ 31, [0]⟩, ⟨2 ^ 31, [1]⟩] 0 < 0 + 1 := by decide
 
 /-- The check this replaced (`threshold > 0 && totalShares < threshold+1` in `uint32`, against the
 TotalShares override) does NOT imply openability: the three witnesses of the defect, and the
@@ -110,5 +154,18 @@ example : ∃ env r,
     rw [show z251 = fieldScalars (ZMod 251) z251Decode z251Encode from rfl] at hb ⊢
     exact accepted_openable z251Decode z251Encode toyPrims 5 _ _ [1] [2, 3] [[10], [11]] exCfg env toyPrims_law exSetting hb
       (by decide) (by decide) [[11], [77], [10]] (by decide)
+
+/-! Non-vacuity of the guards: each error is produced (toy primitives, ℤ/251). -/
+
+example :
+    build toyPrims z251 5 (fun i => (i : ZMod 251) + 3) (List.replicate 24 9) [1] [] [[10], [11]] exCfg = .err .emptyPayload ∧
+    build toyPrims z251 5 (fun i => (i : ZMod 251) + 3) (List.replicate 24 9) [1] [2, 3] [] exCfg = .err .noKeypairs ∧
+    build toyPrims z251 5 (fun i => (i : ZMod 251) + 3) (List.replicate 24 9) [1] [2, 3] [[10], [11]] {} = .err .noGrants ∧
+    build toyPrims z251 5 (fun i => (i : ZMod 251) + 3) (List.replicate 24 9) [1] [2, 3] [[10], [11]]
+      { grants := [⟨1, [2]⟩] } = .err .invalidKeypairIndex ∧
+    buildOpt toyPrims z251 5 (fun i => (i : ZMod 251) + 3) (List.replicate 24 9) [1] [2, 3] [[10], [11]] none = .err .noGrants ∧
+    buildKeys toyPrims z251 5 (fun i => (i : ZMod 251) + 3) (List.replicate 24 9) [1] [2, 3] [some [10], none]
+      (some { grants := [⟨1, [0]⟩] }) = .err .encrypt := by
+  refine ⟨by decide, by decide, by decide, by decide, by decide, by decide⟩
 
 end Bifrost.Props.C17
